@@ -18,7 +18,7 @@ struct Kind {
     elem: usize,
 }
 
-const KINDS: [Kind; 10] = [
+const KINDS: [Kind; 11] = [
     Kind { name: "Cmdline", typ: bi::CMDLINE, fixed: 8, elem: 1 },
     Kind { name: "BootLoaderName", typ: bi::BOOTLOADER, fixed: 8, elem: 1 },
     Kind { name: "Module", typ: bi::MODULE, fixed: 16, elem: 1 },
@@ -29,6 +29,8 @@ const KINDS: [Kind; 10] = [
     Kind { name: "Network", typ: bi::NETWORK, fixed: 8, elem: 1 },
     Kind { name: "Framebuffer", typ: bi::FRAMEBUFFER, fixed: 32, elem: 1 },
     Kind { name: "Generic", typ: bi::CUSTOM, fixed: 8, elem: 1 },
+    // the generic structure with the end type in its header: still a structure with a payload
+    Kind { name: "GenericEnd", typ: 0, fixed: 8, elem: 1 },
 ];
 
 /// What the typed view exposes: (metadata element count, size_of_val,
@@ -450,7 +452,7 @@ fn run(ctx: &mut Ctx) {
                     });
                 });
                 // ---------- region-level (only sizes that fit the region; the generic kind has no getter)
-                if kind.name == "Generic" || size as usize > top || size < 8 {
+                if kind.name == "Generic" || kind.name == "GenericEnd" || size as usize > top || size < 8 {
                     continue;
                 }
                 let filler1 = bi::tag(0x77, &[0xC1, 0xC2, 0xC3, 0xC4, 0xC5]);
@@ -488,17 +490,19 @@ fn run(ctx: &mut Ctx) {
     let top = 8 + 16 + extra;
     let mut szs: Vec<u32> = (0..=top as u32).collect();
     szs.extend(EDGE32.iter().copied().filter(|&e| e as usize > top));
-    for &size in &szs {
+    // (second pass: all request words zero - the id of the end tag -, so that a "filler" is indistinguishable from
+    // a request)
+    for (&size, zero_content) in szs.iter().flat_map(|s| [(s, false), (s, true)]) {
         let present = if (size as usize) <= top { round8(size as usize).max(8) - 8 } else { round8(top) - 8 };
         let mut img = vec![0u8; 8 + present];
         for i in 8..img.len() {
-            img[i] = marker(i, 6);
+            img[i] = if zero_content { 0 } else { marker(i, 6) };
         }
         wr16(&mut img, 0, 1);
         wr16(&mut img, 2, 1);
         wr32(&mut img, 4, size);
         let kind = Kind { name: "InformationRequest", typ: 1, fixed: 8, elem: 4 };
-        let describe = || J::obj().set("seam", "tag").set("kind", "InformationRequest(header crate)").set("declared_size", size).set("slice", J::hex(&img));
+        let describe = || J::obj().set("seam", "tag").set("kind", "InformationRequest(header crate)").set("declared_size", size).set("zero_requests", zero_content).set("slice", J::hex(&img));
         ctx.leaf(describe, |ctx| {
             ctx.state_direct();
             ctx.nontrivial();
